@@ -151,28 +151,28 @@ pub fn run(ctx: &mut Ctx) {
             }
         }
     }
-    // from_iter over pairs: order independent, rejects gaps and duplicates
-    let perms3: [[usize; 3]; 6] = [[0, 1, 2], [0, 2, 1], [1, 0, 2], [1, 2, 0], [2, 0, 1], [2, 1, 0]];
-    for p in perms3.iter() {
-        let id = format!("dnm.from_pairs:{:?}", p);
-        if ctx.want(&id) {
-            let pairs: Vec<(usize, u32)> = p.iter().map(|&k| (k, 100 + k as u32)).collect();
+    // from_iter over pairs: for EVERY key vector of length <= 3 over keys 0..=3: accepted iff the keys
+    // are a permutation of 0..len, and then each key maps to its value whatever the input order
+    for len in 0..=3usize {
+        for code in 0..4usize.pow(len as u32) {
+            let keys: Vec<usize> = (0..len).map(|k| (code / 4usize.pow(k as u32)) % 4).collect();
+            let id = format!("dnm.from_pairs:{:?}", keys);
+            if !ctx.want(&id) { continue; }
+            let mut sorted = keys.clone();
+            sorted.sort();
+            let is_perm = sorted.iter().enumerate().all(|(i, k)| *k == i);
+            let pairs: Vec<(usize, u32)> = keys.iter().enumerate().map(|(pos, &k)| (k, 100 + 10 * k as u32 + pos as u32)).collect();
+            let want: Option<Vec<u32>> = if is_perm {
+                let mut v = vec![0u32; len];
+                for (k, val) in &pairs { v[*k] = *val; }
+                Some(v)
+            } else { None };
             let res = catch_unwind(move || {
                 let m: DenseNatMap<usize, u32> = pairs.into_iter().collect();
                 m.values().copied().collect::<Vec<u32>>()
             });
-            ctx.check(&id, "dnm-from-pairs", &["DNM.from_iter_pairs"], res.as_ref().ok() == Some(&vec![100, 101, 102]), format!("{:?}", res.ok()), "[100,101,102]".into());
-        }
-    }
-    for bad in [vec![0usize, 2], vec![1], vec![0, 0], vec![0, 1, 1], vec![1, 2]] {
-        let id = format!("dnm.from_pairs_bad:{:?}", bad);
-        if ctx.want(&id) {
-            let pairs: Vec<(usize, u32)> = bad.iter().map(|&k| (k, 100 + k as u32)).collect();
-            let res = catch_unwind(move || {
-                let m: DenseNatMap<usize, u32> = pairs.into_iter().collect();
-                m.len()
-            });
-            ctx.check(&id, "dnm-from-pairs-reject", &["DNM.from_iter_pairs"], res.is_err(), format!("{:?}", res.ok()), "panic (gap or duplicate key)".into());
+            let got = res.ok();
+            ctx.check(&id, if is_perm { "dnm-from-pairs" } else { "dnm-from-pairs-reject" }, &["KX.k_dnm_from_pairs_accepts_permutations", "KX.k_dnm_from_pairs_rejects_gaps_and_duplicates"], got == want, format!("{:?}", got), format!("{:?} (None = must panic: gap or duplicate key)", want));
         }
     }
 }
